@@ -426,12 +426,12 @@ def run_order(ctx, case):
                                                  env=dict(os.environ, PYTHONHASHSEED="0"))))
         if len(procs) >= 8:
             for od_, p in procs:
-                out, _ = p.communicate(timeout=120)
+                out, _ = p.communicate(timeout=900)
                 line = [ln for ln in out.splitlines() if ln.startswith("VERDICT ")]
                 results[od_] = json.loads(line[0][8:]) if line else None
             procs = []
     for od_, p in procs:
-        out, _ = p.communicate(timeout=120)
+        out, _ = p.communicate(timeout=900)
         line = [ln for ln in out.splitlines() if ln.startswith("VERDICT ")]
         results[od_] = json.loads(line[0][8:]) if line else None
     ok_runs = {k: v for k, v in results.items() if v is not None}
